@@ -427,8 +427,8 @@ func RunReplay(t *testing.T, harnesses map[string]func()) {
 		// times until the recorded failure shows (violation / known-finding cases only)
 		usesMapOrder := false
 		for _, in := range c.Inputs {
-			if strings.HasPrefix(in.Name, "maporder") {
-				usesMapOrder = true
+			if strings.HasPrefix(in.Name, "maporder") || strings.HasPrefix(in.Name, "sched") {
+				usesMapOrder = true // (or the completion order of the loader's goroutines)
 			}
 		}
 		if usesMapOrder && !strings.HasPrefix(c.ID, "witness") {
